@@ -189,6 +189,56 @@ def run(rep, tier):
                       cur_, s_, e_, ("stays in the block" if not ex else "leaves the block") if (ex is True) != leaves else "sets current_ to %s" % nv), inc.loc(),
                   sample=((cur_, s_, e_) in ((3, -1, 1), (1, -1, 1))))
 
+    # ---------------------------------------------------------------- R18.8 (iterator position)
+    rep.rule("R18.8", "RangeParser::iterator: a position is (block, current); operator== is true exactly when both agree and operator!= is its negation "
+                      "(the end position is told apart by the block only: its current_ value is an ordinary integer that a range may contain)")
+    other = None
+
+    def pos_oracle(leaf):
+        if isinstance(leaf, tuple) and len(leaf) == 3 and leaf[0] in ("==", "!="):
+            a_, b_ = sorted((str(leaf[1]), str(leaf[2])), key=len)
+            for fld, nm in (("block_", "BLOCK"), ("current_", "CURRENT"), ("parent_", "PARENT")):
+                if a_ in (fld, "this->" + fld, "deref(this)." + fld) and b_ in (other + "." + fld, other + "->" + fld):
+                    return (nm, leaf[0] == "==")
+            if {str(leaf[1]), str(leaf[2])} == {"deref(this)", other}:          # delegation to the sibling operator
+                return ("SIBLING" + leaf[0], True)
+        return None
+    eqs = {}
+    for opn in ("operator==", "operator!=", "operator=="):
+        if len(eqs.get(opn, {})) == 4:
+            continue
+        eqs.pop(opn, None)
+        fq = F.find(RP + "iterator::" + opn)
+        if len(fq) != 1:
+            raise AnalysisBroken("RangeParser::iterator::%s not found" % opn)
+        fq = fq[0]
+        rep.analysed(fq)
+        other = fq.j["params"][0]["name"]
+        fe = Fold(fq, inline=same_class).run()
+        rets = [e for e in fe.events if e["kind"] == "return"]
+        for B_, C_ in ((True, True), (True, False), (False, True), (False, False)):
+            at_ = {"BLOCK": B_, "CURRENT": C_, "PARENT": True}
+            for sib_, tab_ in eqs.items():
+                if sib_ == opn or len(tab_) != 4:
+                    continue
+                at_["SIBLING" + sib_[len("operator"):]] = tab_[(B_, C_)]
+            got = None
+            for e in rets:
+                if executes(e, None, at_, pos_oracle, getattr(fe, "conds", {})) is True:
+                    got = decide(e["value"], None, at_, pos_oracle, getattr(fe, "conds", {})) if isinstance(e["value"], tuple) else (
+                        True if e["value"] in (sp.true, True, sp.Integer(1)) else False if e["value"] in (sp.false, False, sp.Integer(0)) else None)
+                    break
+            if got is None and opn == "operator==" and "operator!=" not in eqs:
+                break                                   # may delegate to operator!=: decided after it
+            if got is None:
+                raise AnalysisBroken("RangeParser::iterator::%s: result not decided for same block %s, same current %s (returns %s)" % (opn, B_, C_, [str(e["value"])[:80] for e in rets]))
+            want_ = (B_ and C_) if opn == "operator==" else not (B_ and C_)
+            eqs.setdefault(opn, {})[(B_, C_)] = got
+            rep.check(got == want_, "R18.8", "%s|block-%s,current-%s" % (opn, "same" if B_ else "differs", "same" if C_ else "differs"), "%s -> %s" % (opn, want_),
+                      "RangeParser::iterator::%s returns %s for two positions of one parser with %s block and %s current value (required %s): iteration 'it != end()' "
+                      "then stops early at, or runs past, an element equal to the end marker's current_" % (opn, got, "the same" if B_ else "different", "the same" if C_ else "different", want_),
+                      fq.loc(), sample=(B_ != C_))
+
     # ---------------------------------------------------------------- R18.3 (printer side)
     pr = [f for f in F.find(T + "operator<<") if "RangeParser" in f.j["sig"]]
     if len(pr) != 1:
